@@ -112,6 +112,10 @@ class ClassTable:
         ("UnicodeDecodeError", ["UnicodeError"]), ("UnicodeEncodeError", ["UnicodeError"]),
         ("CancelledError", ["BaseException"]),
         ("MemoryError", ["Exception"]),
+        ("ConnectionError", ["OSError"]), ("FileNotFoundError", ["OSError"]), ("PermissionError", ["OSError"]),
+        ("OverflowError", ["ArithmeticError"]), ("EOFError", ["Exception"]), ("ModuleNotFoundError", ["ImportError"]),
+        ("UnboundLocalError", ["NameError"]), ("BufferError", ["Exception"]), ("ReferenceError", ["Exception"]),
+        ("SystemError", ["Exception"]), ("StopAsyncIteration", ["Exception"]),
     ]
     EXTERN_ALIASES = {
         "abc.ABC": "ABC", "typing.Generic": "Generic", "MutableMapping": "MutableMapping",
